@@ -220,7 +220,10 @@ class _OldFn:
 def _native_fresh(pre_ids):
     def fresh(x):
         """fresh(x): the object did not exist (was not reachable from the arguments) before the call"""
-        return id(canon(x)) not in pre_ids
+        x = canon(x)
+        if x is None or isinstance(x, (int, float, str, bytes, bool, type)):
+            return False  # not objects in the sense of the allocation model (None is never fresh)
+        return id(x) not in pre_ids
 
     return fresh
 
